@@ -612,7 +612,10 @@ class FileEmitter:
             if m:
                 new = "exec static %s: &'static str ensures %s@ == %s@ { %s }" % (m.group(1), m.group(1), m.group(2), m.group(2))
                 ctx.log("R-static", self.rel, it.line, txt, new); return new
-            raise ExtractError("%s:%d unsupported static" % (self.rel, it.line))
+            # a static the verifier cannot take (interior mutability, lazy initialisation, ...): the item is left out and every function
+            # that names it becomes a front-end error -> outside the verifier's reach (runner), never silently accepted
+            ctx.dropped["unsupported_items"] = ctx.dropped.get("unsupported_items", 0) + 1
+            ctx.log("D-6", self.rel, it.line, txt[:80], "(item left out: unsupported static)"); return None
         if it.kind == "trait":  # trait without children? (has braces always) -> handled above
             return txt
         if it.kind in ("struct", "enum"):
@@ -655,7 +658,8 @@ class FileEmitter:
         if it.kind == "trait":
             return txt
         if it.kind == "other":
-            raise ExtractError("%s:%d unsupported item: %s" % (self.rel, it.line, txt[:60]))
+            ctx.dropped["unsupported_items"] = ctx.dropped.get("unsupported_items", 0) + 1
+            ctx.log("D-6", self.rel, it.line, txt[:80], "(item left out: macro item such as thread_local!)"); return None
         return txt.replace("crate::core", "crate::rp_core")
 
     def rule_pubfields(self, it, txt):
@@ -810,6 +814,15 @@ class FileEmitter:
         if spec:
             for a in spec.attrs: pre += indent + a.strip() + "\n"
         stub_this = (self.stub or ("%s|%s::%s" % key) in self.ctx.stub_fns) and body is not None
+        forced_reason = None
+        if body is not None and not ext and not stub_this:
+            b0 = body.replace("crate::core", "crate::rp_core")
+            nkf = len(re.findall(r"\bKey(?:::<\d+>)?::from\(\s*&?\w", b0)) - len(re.findall(r"\bKey(?:::<\d+>)?::from\(\s*(?:output|\*)", b0))
+            declared = int(spec.opts.get("keyfrom", 0)) if spec else 0
+            if nkf != declared:
+                # `Key::from(<slice>)` panics on a wrong length and a trait-impl method cannot carry `requires` (DESIGN 1.2): a function whose
+                # number of such call sites differs from what its contract declares is put outside the verifier's reach, not silently accepted
+                stub_this = True; forced_reason = "%d Key::from(<slice>) call site(s) but the contract declares keyfrom=%d (DESIGN 1.2)" % (nkf, declared)
         if ext or stub_this:
             pre += indent + "#[verifier::external_body]\n"
         self.out.add(pre)
@@ -831,10 +844,6 @@ class FileEmitter:
             else:
                 b = body.replace("crate::core", "crate::rp_core")
                 if not ext:
-                    nkf = len(re.findall(r"\bKey(?:::<\d+>)?::from\(\s*&?\w", b)) - len(re.findall(r"\bKey(?:::<\d+>)?::from\(\s*(?:output|\*)", b))
-                    declared = int(spec.opts.get("keyfrom", 0)) if spec else 0
-                    if nkf != declared:
-                        raise ExtractError("call site needs contract: %s fn %s has %d Key::from(<slice>) call(s) but its contract declares keyfrom=%d (DESIGN 1.2)" % (self.rel, it.name, nkf, declared))
                     b = inline_helpers(ctx, self.rel, ik, b, d["ret"])
                     b = rule_fold(ctx, self.rel, b)
                     b = rule_body_text(ctx, self.rel, b)
@@ -843,7 +852,7 @@ class FileEmitter:
                 self.out.add(indent + b + "\n\n", dict(meta_base, part="body"))
         self.dropped_hints = getattr(self, "dropped_hints", [])
         bh = hashlib.sha1(re.sub(r"\s+", " ", (R.text(it.sig) + (body or ""))).encode()).hexdigest()[:16]
-        ctx.fn_index.append({"file": self.rel, "impl": ik, "fn": it.name, "line": it.line, "external_body": bool(ext or self.stub), "stubbed": bool(stub_this and not ext),
+        ctx.fn_index.append({"file": self.rel, "impl": ik, "fn": it.name, "line": it.line, "external_body": bool(ext or self.stub), "stubbed": bool(stub_this and not ext), "forced_stub_reason": forced_reason,
                              "body_hash": bh, "hints_dropped": list(self.dropped_hints) if (body is not None and not ext and not stub_this) else [],
                              "body_text": re.sub(r"\s+", " ", body or "")[:6000],
                              "params": pn,
